@@ -14,6 +14,13 @@ def what_fn(case, obs, verdict):
     f = case.split(" ")
     if f[0] == "tr":
         return "http.Transport built by NewTransport does not carry the TransportConfig fields under the same names"
+    why = verdict.split(":", 1)[-1]
+    if why == "client-sharing":
+        return ("http clients of the guns the engine bound do not satisfy clients_ok: instances share a client although the shared client "
+                "is not enabled (or more pool clients than client-number), format %s" % (f[1] if len(f) > 1 else "?"))
+    if why == "connection-count":
+        return ("connections seen by the target do not satisfy conn_ok (keep-alive + per-instance clients: <= instances; keep-alive off: "
+                "== requests), format %s" % (f[1] if len(f) > 1 else "?"))
     return "request recorded by the target differs from the ammo entry + gun config (%s, format %s)" % (
         verdict.split(":", 1)[-1], f[1] if len(f) > 1 else "?")
 
@@ -34,6 +41,7 @@ def run(ctx):
               "Transfer-Encoding/Expect/Trailer/Pragma headers, nor invalid header names, nor an empty User-Agent "
               "(net/http drops it); jsonline entries have distinct canonical keys (Go map iteration order otherwise decides)"),
         key_fn=key_fn, what_fn=what_fn,
+        bridge_files=["Properties/C09_conns.v"],  # keep-alive / connection sentence (Model/HttpConns.v, Proofs/HttpConnsProofs.v)
         trusted=[
             "extraction: ExtrOcamlBasic only; OCaml driver ocaml/C09/main.ml + ocaml/common/conv.ml",
             "correspondence harness harness/cmd/hC09 (config decoder, http providers uri/uripost/http-json/raw, http gun, engine: all real; "
